@@ -1,4 +1,6 @@
 import RgVerif.Lemmas.PrinterModes
+import RgVerif.Lemmas.PrinterOnly
+import RgVerif.Lemmas.PrinterRun
 /-
 C10 — all reporting modes agree with each other.
 Only the theorems that decide the property live here (helper lemmas: `Lemmas/Printer*.lean`).
@@ -17,7 +19,7 @@ Standing hypotheses, each stated where used:
 namespace RgVerif.Props.C10
 open RgVerif RgVerif.Matcher RgVerif.Replace RgVerif.Json RgVerif.Printer RgVerif.PrinterSpec RgVerif.Summary
 open RgVerif.Lemmas.PrinterIter RgVerif.Lemmas.PrinterJsonRun RgVerif.Lemmas.PrinterCount RgVerif.Lemmas.PrinterModes
-open RgVerif.Lemmas.PrinterStd
+open RgVerif.Lemmas.PrinterStd RgVerif.Lemmas.PrinterOnly RgVerif.Lemmas.PrinterRun
 
 /-! ## --count = matched callbacks = match records of standard mode -/
 
@@ -69,6 +71,30 @@ theorem count_eq_lines (sc : SCfg) (cS : SumCfg) (cT : StdCfg) (find : Oracle) (
     (sumSearch sc cS find evs bc).matchCount = (stdSearch sc cT find w evs bc').matchCount := by
   rw [(summary_match_count sc cS find evs bc hsl (Or.inr (by simp [hk, Kind.quitEarly]))).1,
     standard_match_count sc cT find w evs bc' ha, hN]
+
+/-- **Run level**: the Standard sink's match count is the number of match records (records with the match
+separator) among the records of the events it consumed — single-line mode, no `--vimgrep`. -/
+theorem match_records_eq_match_count (sc : SCfg) (c : StdCfg) (find : Oracle) (st : StdState) (evs : List Event)
+    (hml : sc.multiLine = false) (hp : c.perMatch = false) :
+    (stdEvents sc c find st evs).matchCount =
+      st.matchCount + matchRecordCount sc c find (processed sc c find st evs) :=
+  matchCount_eq_match_records sc c find hml hp evs st
+
+/-- **count = printed matching lines**: `--count` equals the number of match records standard mode prints for the
+same stream, matcher and `-m N` (the records are those of `C09_standard`, counted over the consumed events). -/
+theorem count_eq_printed_lines (sc : SCfg) (cS : SumCfg) (cT : StdCfg) (find : Oracle) (w : StdState)
+    (evs : List Event) (bc : Nat) (hk : cS.kind = .count) (hN : cS.maxMatches = cT.maxMatches)
+    (hml : sc.multiLine = false) (ha : sc.afterContext = 0) (hp : cT.perMatch = false)
+    (h0 : (cT.maxMatches == some 0) = false) :
+    (sumSearch sc cS find evs bc).matchCount =
+      matchRecordCount sc cT find
+        (processed sc cT find
+          (stdBegin cT { w with matchCount := 0, afterRem := 0, stats := if cT.stats then some {} else none }).1 evs) := by
+  rw [count_eq_lines sc cS cT find w evs bc bc hk hN (by simp [hml]) ha]
+  unfold stdSearch stdFinish
+  simp only [stdBegin, h0, Bool.not_false, ↓reduceIte]
+  rw [match_records_eq_match_count sc cT find _ evs hml hp]
+  simp
 
 /-- what `-c` prints is that number -/
 theorem count_out (sc : SCfg) (c : SumCfg) (find : Oracle) (evs : List Event) (bc : Nat) (hk : c.kind = .count)
@@ -177,6 +203,32 @@ theorem only_matching_records (sc : SCfg) (c : StdCfg) (s : Sunk) (ho : c.onlyMa
   have : s.ms.isEmpty = false := by cases hs : s.ms with | nil => exact absurd hs hne | cons _ _ => rfl
   simp only [this, Bool.false_eq_true, ↓reduceIte, hml]
   exact sinkSlow_only sc c s ho
+
+/-- **-U -o, byte level**: in multi-line mode `--only-matching` prints, line by line, one record per non-empty
+intersection of a (sorted, disjoint) match with the line: a match spanning k lines gives k records, an empty match
+none — the precise content of finding class `multiline-only-matching-records`. -/
+theorem only_matching_multiline_records (sc : SCfg) (c : StdCfg) (s : Sunk) (hne : s.ms ≠ []) (hs : Sorted s.ms)
+    (ho : c.onlyMatching = true)
+    (hok : (splitLines sc.lt.asByte s.bytes).all (crlfLineOk sc.lt) = true) :
+    sinkSlowMultiLine sc c s =
+      ((lineSpans sc.lt.asByte s.bytes).zipIdx 0).flatMap
+        (fun q => linePieces sc c s q.2 q.1.1 (trimLineTerminator sc.lt s.bytes q.1.1 q.1.2)) :=
+  sinkSlowMultiLine_only_eq sc c s hne hs ho hok
+
+/-- the matches every printer records for a range are sorted, disjoint and well-formed (sane matcher) -/
+theorem recorded_matches_sorted (sc : SCfg) (find : Oracle) (bytes : Bytes) (rs re : Nat)
+    (hs : Sane (find (cutHaystack sc bytes re)) (cutHaystack sc bytes re).length) :
+    Sorted (shiftSpans rs (findIterInContext sc find bytes rs re)) :=
+  findIterInContext_sorted sc find bytes rs re hs
+
+/-- non-vacuity / the finding in the model: `a\nb` on `a\nb\n` (one match `[0,3)`) prints two `-o` records, the
+empty match of `$` at `[1,1)` in `a\n` prints none. -/
+example :
+    sinkSlowMultiLine { multiLine := true } { onlyMatching := true }
+      { bytes := [97, 10, 98, 10], absOff := 0, lineNo := none, ctx := none, ms := [⟨0, 3⟩] } = [97, 10, 98, 10] ∧
+    sinkSlowMultiLine { multiLine := true } { onlyMatching := true }
+      { bytes := [97, 10], absOff := 0, lineNo := none, ctx := none, ms := [⟨1, 1⟩] } = [] := by
+  decide
 
 /-! ## every matched line has a submatch -/
 
